@@ -258,6 +258,12 @@ func c19FinalState(ch *chain.Chain, path string) {
 	if di := ch.App.PoolIncentivesKeeper.GetDistrInfo(qctx); true {
 		out["query/distrinfo"] = di.String()
 	}
+	if tl, err := ch.App.PoolManagerKeeper.TotalLiquidity(qctx); true {
+		out["query/total_liquidity"] = fmt.Sprintf("%v|%v", tl, err)
+	}
+	if cl, err := ch.App.ConcentratedLiquidityKeeper.GetTotalLiquidity(qctx); true {
+		out["query/total_liquidity/concentrated"] = fmt.Sprintf("%v|%v", cl, err)
+	}
 	for _, d := range []string{"uosmo", "foo", "bar", "baz"} {
 		out["query/supply/"+d] = ch.App.BankKeeper.GetSupply(qctx, d).String()
 	}
@@ -796,6 +802,11 @@ func c19RunRole(c *vk.Ctx) bool {
 			c19TraceSwitch(dir, tag, -1)
 			writeJSONL(filepath.Join(dir, "trace-"+tag+".jsonl"), c19Trace(res, blk.Height, true))
 			c19MaybeDump(ch, dir, tag, blk.Height)
+			if os.Getenv("VERIF_C19_CLLIQ") != "" {
+				if p, err := ch.App.ConcentratedLiquidityKeeper.GetConcentratedPoolById(ch.Ctx, 3); err == nil {
+					fmt.Printf("CLLIQ h=%d tracker=%s pool=%s descs=%v\n", blk.Height, ch.App.ConcentratedLiquidityKeeper.GetDenomLiquidity(ch.Ctx, "bar"), ch.Bal(p.GetAddress(), "bar"), blk.Descs)
+				}
+			}
 		}
 		// the final state is read as of the same pending-block time in every process
 		ch.Time = time.Unix(0, blocks[len(blocks)-1].TimeNs).UTC().Add(5 * time.Second)
